@@ -54,14 +54,16 @@ Definition blind (c : login_cfg) : login_cfg :=
 (* ---------------------------------------------------------------- dispatch *)
 Definition lres_code (r : lres) : Z := match r with LSuccess => 0 | LRejected => 1 | LCtx => 2 end.
 
-Record linput := { li_cfg : login_cfg; li_rounds : list (list packet_in); li_cap : Z; li_symkey : bytes; li_order : list Z }.
+Record linput := { li_cfg : login_cfg; li_rounds : list (list packet_in); li_cap : Z; li_symkey : bytes; li_order : list Z;
+                   li_noplain : bool }.     (* the harness holds no private key for this script: plaintexts are not reported *)
 Definition linput_of (i : tree) : linput :=
   let c := login_cfg_of_tree (t_nth 1 i) in
   {| li_cfg := {| lc_hostname := lc_hostname c; lc_username := lc_username c; lc_password := lc_password c; lc_hostproc := lc_hostproc c;
                   lc_appname := lc_appname c; lc_servname := lc_servname c; lc_language := lc_language c; lc_charset := lc_charset c;
                   lc_encrypt := t_int (t_nth 0 i); lc_remote := lc_remote c |};
      li_rounds := map (fun r => map packet_of_tree (t_list r)) (t_list (t_nth 2 i));
-     li_cap := t_int (t_nth 3 i); li_symkey := t_bytes (t_nth 4 i); li_order := map t_int (t_list (t_nth 5 i)) |}.
+     li_cap := t_int (t_nth 3 i); li_symkey := t_bytes (t_nth 4 i); li_order := map t_int (t_list (t_nth 5 i));
+     li_noplain := t_int (t_nth 6 i) =? 1 |}.
 
 (* ciphertexts are opaque: the harness blanks them in what it reports, the model writes zeros of the key's size *)
 Definition blank_enc (cap : Z) : bytes -> bytes -> nat -> bytes := fun _ _ _ => zeros (cap + 42).
@@ -71,6 +73,7 @@ Definition run_login (li : linput) (c : login_cfg) : outcome :=
 
 (* the plaintexts handed to the encryption when the second message is complete *)
 Definition plaintexts (li : linput) (o : outcome) : list bytes :=
+  if li_noplain li then [] else
   match o_wire o with
   | [_; _] =>
     let '(ess1, _) := rx_run 0 0 rx_init (nth 0 (li_rounds li) []) in
@@ -91,7 +94,7 @@ Definition out_of (li : linput) (o : outcome) : tree :=
 
 Definition login_run (fn : Z) (i : tree) : tree :=
   match fn with
-  | 30 | 31 => let li := linput_of i in out_of li (run_login li (li_cfg li))
+  | 30 | 31 | 32 => let li := linput_of i in out_of li (run_login li (li_cfg li))
   | _ => rx_fn_run fn i
   end.
 
@@ -144,5 +147,9 @@ Definition login_spec (fn : Z) (i o : tree) : bool :=
                    end
       | [] => negb (fields_fitb c)
       end
+  | 32 =>
+    (* C10 through the login: whatever the server's replies and key material are, Login returns (success or an error);
+       it neither panics (class -1) nor stays in the call (class -2) *)
+    (class =? 0) || (class =? 1) || (class =? 2)
   | _ => rx_fn_spec fn i o
   end.
